@@ -118,7 +118,8 @@ def check_payloads(ctx, fx, cfg, RULE):
     # R01.8 each payload closure runs the handler of its own message exactly once on the loop's (actor, ctx)
     n_pl = 0
     for key, ent in fx.dyn.items():
-        if not (key.startswith("dyn core::ops::function::FnOnce<(&mut A, &mut context::Context<A>)>") and "[Output=core::pin::Pin<alloc::boxed::Box<dyn core::future::future::Future + [Output=()]" in key):
+        tt_ = loops.task_trait(fx)
+        if not ((tt_ is not None and key.startswith("dyn %s<" % tt_[0])) or key.startswith("dyn core::ops::function::FnOnce<(&mut A, &mut context::Context<A>)>") and "[Output=core::pin::Pin<alloc::boxed::Box<dyn core::future::future::Future + [Output=()]" in key):
             continue
         for s in ent["sources"]:
             pc = fx.fn(s.get("def") or "")
@@ -200,6 +201,38 @@ def check_single_queue(ctx, fx, cfg, r1="R01.1", r2="R01.2"):
                             ends.add(r1.proj[0] if r1.proj else None)
             return good, ends, rs
 
+        def role_of(body_, local):
+            """which trait object the literal in `local` becomes (follows moves, Arc::new / Box::new / Pin::new and the
+            unsizing cast): 'waiting' | 'forcing' | 'receive' | None — one named type may implement both submit traits"""
+            seen, work = set(), [local]
+            while work:
+                l = work.pop()
+                if l in seen:
+                    continue
+                seen.add(l)
+                for blk in body_.blocks:
+                    if blk["c"]:
+                        continue
+                    for st in blk["s"]:
+                        if st["k"] != "assign" or len(st["p"]) != 1:
+                            continue
+                        r = st["r"]
+                        o = r.get("o") if r["k"] in ("use", "cast") else None
+                        if o and o.get("k") in ("move", "copy") and o["p"] == [l]:
+                            if r["k"] == "cast" and "dyn " in (r.get("to") or ""):
+                                to = r["to"]
+                                if "dyn channel::TxFn<" in to:
+                                    return "waiting"
+                                if "dyn channel::ForceTxFn<" in to:
+                                    return "forcing"
+                                if "dyn core::ops::function::FnMut<(&mut core::task::wake::Context,)>" in to:
+                                    return "receive"
+                            work.append(st["p"][0])
+                    tt = blk["t"]
+                    if tt["k"] == "call" and (tt.get("callee") or "").endswith("::new") and (tt.get("callee") or "").startswith(("alloc::sync::", "alloc::boxed::", "core::pin::")) and tt["args"] and tt["args"][0].get("k") in ("move", "copy") and tt["args"][0]["p"] == [l] and len(tt["dest"]) == 1:
+                        work.append(tt["dest"][0])
+            return None
+
         def closures_in(body_, resolve, tyof=None):
             """submit / receive closures built in body_; resolve(operand of body_) -> (good, ends, roots) in the constructor"""
             lits = list(agg_sites(body_, ak="closure")) + [x for x in agg_sites(body_, ak="adt") if any(cf and cf.get("_adt") == x[2]["r"].get("def") for _k, cf, _ in subs)]
@@ -208,6 +241,10 @@ def check_single_queue(ctx, fx, cfg, r1="R01.1", r2="R01.2"):
                 kind = [k for k, cf, _ in subs if cf and (cf["def"] == cdef or cf.get("_adt") == cdef)]
                 if not kind:
                     continue
+                if len(set(kind)) > 1:
+                    # one type behind both submit traits: the role of this literal is the trait object it is turned into
+                    rl = role_of(body_, st["p"][0]) if len(st["p"]) == 1 else None
+                    kind = [rl] if rl in kind else kind
                 kinds.append(kind[0])
                 for o in st["r"]["ops"]:
                     if o["k"] not in ("copy", "move"):
@@ -222,6 +259,15 @@ def check_single_queue(ctx, fx, cfg, r1="R01.1", r2="R01.2"):
                     ctx.require(good and ends == {want}, r2, "%s-closure:%s@%s" % (kind[0], fn_, cfg), "a submit / receive closure holds an end of a different channel (ends %s, roots %s)" % (ends, sorted(map(str, rs))), fn=fn_, site=st.get("l"), detail={"captures": ty[:70], "end": sorted(map(str, ends))})
 
         closures_in(b, end_of)
+        # the receive side may be the receiver itself, erased to a boxed `dyn Stream<Item = Payload<A>>` (no closure)
+        for blk_ in b.blocks:
+            for st_ in blk_["s"] if not blk_["c"] else []:
+                r_ = st_["r"] if st_["k"] == "assign" else {}
+                if r_.get("k") == "cast" and "dyn futures_core::stream::Stream" in (r_.get("to") or "") and loops.PAYLOAD + "<" in r_["to"] and r_["o"].get("k") in ("move", "copy"):
+                    good, ends, rs = end_of(r_["o"])
+                    if "receive" not in kinds:  # the coercion may be spelled in two steps (Box -> Pin<Box> -> dyn)
+                        kinds.append("receive")
+                    ctx.require(good and ends == {"f1"}, r2, "receive-closure:%s@%s" % (fn_, cfg), "the receive side holds an end of a different channel (ends %s, roots %s)" % (ends, sorted(map(str, rs))), fn=fn_, site=st_.get("l"))
         # a closure may be built by a private helper of the constructor that is given the channel end as an argument
         helpers = graph.private_helpers(fx, set(ctors))
         for hbi, ht in b.normal_calls():
@@ -401,7 +447,7 @@ def check_cfg(ctx, fx, cfg):
             wco = [c for c in fx.children_of(wraps[0][1]["callee"]) if c["kind"] == "coroutine"]
             if ctx.require(len(wco) == 1, "R01.10", "wrapper-body@" + cfg, "body of the timeout wrapper not found", fn=f["def"], site=f["loc"]):
                 before = len(ctx.violations)
-                c11.check_wrapper(ctx, fx, wco[0])
+                c11.check_wrapper(ctx, fx, wco[0], c11.wrapper_sig(fx, wraps[0][1]) or (0, 1, "option", -1))
                 # re-key what the shared rule reported under this property's rule id
                 for v in ctx.violations[before:]:
                     v["rule"] = "R01.10"
@@ -440,7 +486,8 @@ def check_cfg(ctx, fx, cfg):
             else:
                 break
         want = "alloc::boxed::Box<dyn core::ops::function::FnOnce<(&mut A, &mut context::Context<A>)> + [Output=core::pin::Pin<alloc::boxed::Box<dyn core::future::future::Future + [Output=()] + core::marker::Send"
-        ctx.require(ty.startswith(want), "R01.6", "task-is-boxed-FnOnce@" + cfg, "Payload::Task must hold a boxed FnOnce(&mut A, &mut Context<A>) -> boxed future: %s" % ty[:120], site=pa["loc"], detail=ty[:160])
+        tt_ = loops.task_trait(fx)
+        ctx.require(ty.startswith(want) or (tt_ is not None and ty.startswith("alloc::boxed::Box<dyn %s<" % tt_[0])), "R01.6", "task-is-boxed-FnOnce@" + cfg, "Payload::Task must hold a boxed FnOnce(&mut A, &mut Context<A>) -> boxed future: %s" % ty[:120], site=pa["loc"], detail=ty[:160])
         clones = [i for i in fx.d["impls"] if i.get("trait") in ("core::clone::Clone", "core::marker::Copy") and i["self"].startswith(loops.PAYLOAD + "<")]
         ctx.require(not clones, "R01.6", "payload-not-clone@" + cfg, "Payload implements Clone/Copy: a message could be duplicated", site=pa["loc"])
         ctx.require(sorted(v["name"] for v in pa["variants"]) == ["Restart", "Stop", "Task"], "R01.6", "payload-variants@" + cfg, "Payload variants changed: %s" % [v["name"] for v in pa["variants"]], site=pa["loc"])
